@@ -29,6 +29,15 @@ fn lit(c: u32, out: &mut Vec<u32>) {
     out.push(c);
 }
 
+/// As an atom outside a class: `\-` is not an escape there under u / v.
+fn lit_atom(c: u32, out: &mut Vec<u32>) {
+    if c == '-' as u32 {
+        out.push(c);
+    } else {
+        lit(c, out);
+    }
+}
+
 /// The set of single characters matched by `re` in `hay` (every match must be one char).
 fn matched_set(re: &regress::Regex, hay: &str) -> Result<RangeSet, String> {
     let r = engine::guarded(FUEL, || {
@@ -109,7 +118,7 @@ pub fn run(cfg: &Cfg, rep: &mut Report) {
             let hi = lo | 0xFF;
             let blk = RangeSet::from_range(lo, hi);
             let interesting = !blk.intersect(&cd.nontrivial_legacy).is_empty() || !blk.intersect(&cd.nontrivial_unicode).is_empty();
-            if cfg.quick() && !interesting && b % 8 != (cfg.seed % 8) as u32 {
+            if cfg.quick() && !interesting && b % 2 != (cfg.seed % 2) as u32 {
                 continue;
             }
             rep.begin(idx, &J::obj().set("construct", "block_class").set("block", format!("{:X}-{:X}", lo, hi)).set("flags", flags.to_string()));
@@ -225,7 +234,7 @@ pub fn run(cfg: &Cfg, rep: &mut Report) {
         }
         for c in 0..=MAX_CP {
             let nontrivial = cd.nontrivial(unicode).contains(c) || nt.contains(c);
-            if cfg.quick() && !nontrivial && c % 97 != (cfg.seed % 97) as u32 {
+            if cfg.quick() && !nontrivial && c % 11 != (cfg.seed % 11) as u32 {
                 continue;
             }
             idx += 1;
@@ -237,7 +246,7 @@ pub fn run(cfg: &Cfg, rep: &mut Report) {
                 rep.begin(idx, &J::obj().set("construct", "literal").set("code_point", c).set("flags", flags.to_string()));
             }
             let mut pat = Vec::new();
-            lit(c, &mut pat);
+            lit_atom(c, &mut pat);
             let re = match engine::compile(&pat, flags, false) {
                 Guarded::Ok(Ok(re)) => re,
                 other => {
@@ -438,7 +447,9 @@ pub fn run(cfg: &Cfg, rep: &mut Report) {
                         v.extend(post.chars().map(|c| c as u32));
                         v
                     };
-                    for (name, pat, hay) in [("ascii_backreference", mk("^(", &la, ")\\1$"), format!("{}{}", ca, cb)), ("ascii_class", mk("^[", &la, "]$"), cb.to_string()), ("ascii_literal_pair", mk("^", &la, "$"), cb.to_string()), ("ascii_backreference_lookbehind", mk("(?<=^(", &la, ").)(?<=\\1)$"), format!("{}{}", ca, cb))] {
+                    let mut at = Vec::new();
+                    lit_atom(a, &mut at);
+                    for (name, pat, hay) in [("ascii_backreference", mk("^(", &at, ")\\1$"), format!("{}{}", ca, cb)), ("ascii_class", mk("^[", &la, "]$"), cb.to_string()), ("ascii_literal_pair", mk("^", &at, "$"), cb.to_string()), ("ascii_backreference_lookbehind", mk("(?<=^(", &at, ").)(?<=\\1)$"), format!("{}{}", ca, cb))] {
                         if let Guarded::Ok(Ok(re)) = engine::compile(&pat, flags, false) {
                             for api in [Api::Ascii, Api::PikeAscii, Api::Utf8] {
                                 let got = matches!(engine::find_first(&re, &hay, 0, api, 1_000_000), Guarded::Ok(Some(_)));
